@@ -151,7 +151,10 @@ class Encoder:
                          "w": r["w"] if len(r["w"]) == n else [0] * n})
         return {"ev": "Complete", "st": self.st(ev["st"]), "pin": ev["pin"], "acc": bool(ev["acc"]),
                 "ens": ev["ens"], "old": ev["old"], "new": ev["new"], "dfrac": dfrac, "dfrac_ok": ok, "dex": dex,
-                "rows": rows, "rec": self.rec(ev["rec"], n), "foreign": int(ev.get("foreign", 0))}
+                "rows": rows, "rec": self.rec(ev["rec"], n), "foreign": int(ev.get("foreign", 0)),
+                "store": {"checked": bool(ev.get("store", {}).get("checked", False)),
+                          "present": [int(x) for x in ev.get("store", {}).get("present", [])],
+                          "live_ok": bool(ev.get("store", {}).get("live_ok", True))}}
 
     def event(self, pre, ev):
         name = ev["ev"]
